@@ -10,12 +10,13 @@ META = {
         "Each evaluation is one query (lca of 1-3 nodes, is_ancestor_of, is_strict_ancestor_of, is_comparable, level, "
         "distance, or one range-minimum query) on the real structures, judged by parent-chain definitions / min(arr[i:j]). "
         "Trees: every rooted ordered tree with <=N nodes (any arity, unary nodes included), all pairs and triples; random "
-        "trees up to 40 nodes; plus the queries the real solvers make (in situ). Non-trivial: tree with >=3 nodes or array "
+        "trees up to 40 nodes; plus the queries the real solvers make (in situ); plus histories: a tree is indexed, edited in "
+        "place (children reversed, subtree moved, leaf added, subtree cut) and indexed again, and two structures live on one tree. Non-trivial: tree with >=3 nodes or array "
         "with >=2 elements; distinct = (tree shape | array, query kind)."
     ),
     "floors": {
-        "quick": {"evaluations": 100000, "mon.lca": 30000, "mon.rmq": 20000, "mon.insitu_lca": 1000},
-        "thorough": {"evaluations": 2000000, "mon.lca": 500000, "mon.rmq": 500000, "mon.insitu_lca": 10000},
+        "quick": {"evaluations": 100000, "mon.lca": 30000, "mon.rmq": 20000, "mon.insitu_lca": 1000, "mon.reindex": 100},
+        "thorough": {"evaluations": 2000000, "mon.lca": 500000, "mon.rmq": 500000, "mon.insitu_lca": 10000, "mon.reindex": 1000},
     },
     "exhaustive": {"quick": True, "thorough": True},
     "space": {"quick": "all rooted ordered trees <=6 nodes; all arrays over {0,1,2} up to length 8, all ranges", "thorough": "all rooted ordered trees <=8 nodes; all arrays over {0,1,2} up to length 10, all ranges (incl. empty and reversed)"},
@@ -65,23 +66,83 @@ def model_from_shape(shape):
     return T(nest(shape))
 
 
-def check_tree(ctx, shape, triples=True, pairs_cap=None, rng=None):
+def shape_of_ete(node):
+    return tuple(shape_of_ete(c) for c in node.children) if node.children else None
+
+
+def apply_edits(root, ops):
+    """In-place edits of an ete3 tree that was (possibly) indexed before; ops refer to pre-order positions of the
+    tree as it is when the op is applied."""
+    for op in ops:
+        nodes = list(root.traverse("preorder"))
+        if op[0] == "rev":
+            nodes[op[1] % len(nodes)].children.reverse()
+        elif op[0] == "move":
+            a = nodes[op[1] % len(nodes)]
+            b = nodes[op[2] % len(nodes)]
+            if a is root or a is b or a in b.get_ancestors() or b is a.up:
+                continue
+            a.detach()
+            b.add_child(a)
+        elif op[0] == "leaf":
+            from ete3 import Tree
+
+            leaf = Tree()
+            leaf.name = f"new{len(nodes)}"
+            nodes[op[1] % len(nodes)].add_child(leaf)
+        elif op[0] == "cut":
+            a = nodes[op[1] % len(nodes)]
+            if a is not root and len(nodes) > 2:
+                a.detach()
+
+
+def check_reindexed(ctx, shape, ops, rng=None):
+    """History workload: index a tree, query it, edit the same node objects in place, index again.  The second
+    structure must answer for the tree as it is now (nothing may survive from the first indexing), and a second
+    structure built on an unedited tree must not disturb the first."""
     from superrec2.utils.trees import LowestCommonAncestor
 
-    case = {"kind": "tree", "shape": RT.tolist(shape)}
+    case = {"kind": "reindex", "shape": RT.tolist(shape), "ops": [list(o) for o in ops]}
     root, nodes = ete_from_shape(shape)
-    M = model_from_shape(shape)
+    try:
+        L1 = LowestCommonAncestor(root)
+        L1(nodes[0], nodes[-1])
+        L1b = LowestCommonAncestor(root)
+        L1b(nodes[-1], nodes[0])
+    except Exception as exc:  # noqa: BLE001
+        ctx.viol("C17.lca", case, f"constructor/query raised {type(exc).__name__}: {exc}")
+        return
+    # two live structures on the same unedited tree: both must be right
+    check_tree(ctx, shape, triples=False, pairs_cap=300, rng=rng, prepared=(root, nodes, model_from_shape(shape), dict(case, phase="first index after a second one was built"), L1), monitor="C17.reindex")
+    apply_edits(root, ops)
+    shape2 = shape_of_ete(root)
+    nodes2 = list(root.traverse("preorder"))
+    ctx.count("mon.reindex")
+    check_tree(ctx, shape2, triples=len(nodes2) <= 7, pairs_cap=600, rng=rng, prepared=(root, nodes2, model_from_shape(shape2), dict(case, phase="fresh index after in-place edits"), None), monitor="C17.reindex")
+
+
+def check_tree(ctx, shape, triples=True, pairs_cap=None, rng=None, prepared=None, monitor="C17.lca"):
+    from superrec2.utils.trees import LowestCommonAncestor
+
+    L = None
+    if prepared is not None:
+        root, nodes, M, case, L = prepared
+    else:
+        case = {"kind": "tree", "shape": RT.tolist(shape)}
+        root, nodes = ete_from_shape(shape)
+        M = model_from_shape(shape)
     assert len(nodes) == len(M.nodes)
     try:
-        L = LowestCommonAncestor(root)
+        if L is None:
+            L = LowestCommonAncestor(root)
     except Exception as exc:  # noqa: BLE001
-        ctx.viol("C17.lca", case, f"constructor raised {type(exc).__name__}: {exc}")
+        ctx.viol(monitor, case, f"constructor raised {type(exc).__name__}: {exc}")
         return
     idx = {n: i for i, n in enumerate(nodes)}
     n = len(nodes)
 
     def bad(kind, args, got, want):
-        ctx.viol("C17.lca", dict(case, query=kind, args=list(args)), f"{kind}{tuple(args)} = {got}, definition gives {want}")
+        ctx.viol(monitor, dict(case, query=kind, args=list(args)), f"{kind}{tuple(args)} = {got}, definition gives {want}" + (f" ({case['phase']})" if "phase" in case else ""))
 
     cnt = 0
     try:
@@ -122,9 +183,11 @@ def check_tree(ctx, shape, triples=True, pairs_cap=None, rng=None):
                 if got != want:
                     bad("lca", (a, b, c), got, want)
     except Exception as exc:  # noqa: BLE001
-        ctx.viol("C17.lca", case, f"query raised {type(exc).__name__}: {exc}")
+        ctx.viol(monitor, case, f"query raised {type(exc).__name__}: {exc}")
     ctx.count("evaluations", cnt)
     ctx.count("mon.lca", cnt)
+    if prepared is not None:
+        ctx.count("mon.reindex_queries", cnt)
     ctx.count("trees")
     ctx.sig(("tree", repr(shape) if n <= 8 else (n, max(len(M.children[v]) for v in M.nodes), max(M.depth.values()))), n >= 3)
     if n >= 5:
@@ -159,6 +222,21 @@ def check_rmq(ctx, arr, ranges=None):
     ctx.sig(("rmq", tuple(arr) if n <= 9 else (n, len(set(arr)))), n >= 2)
     if n >= 4:
         ctx.sample(case, cap=6)
+
+
+def random_ops(rng, n, k):
+    ops = []
+    for _ in range(k):
+        kind = rng.choice(["rev", "rev", "move", "move", "leaf", "cut"])
+        if kind == "rev":
+            ops.append(("rev", rng.randrange(n)))
+        elif kind == "move":
+            ops.append(("move", rng.randrange(1, n + 1), rng.randrange(n)))
+        elif kind == "leaf":
+            ops.append(("leaf", rng.randrange(n)))
+        else:
+            ops.append(("cut", rng.randrange(1, n + 1)))
+    return ops
 
 
 class InSituLCA:
@@ -248,6 +326,17 @@ def run(ctx, spec):
                 check_tree(ctx, shape, triples=n <= 7)
                 if ctx.too_many():
                     return
+        rng = ctx.rng("reindex")
+        idx = 0
+        for n in range(2, min(spec["maxnodes"], 6) + 1):
+            for shape in RT.rooted_ordered_trees(n):
+                idx += 1
+                if idx % spec["n"] != spec["i"]:
+                    continue
+                for rep in range(2):
+                    check_reindexed(ctx, shape, random_ops(rng, n, 1 + rep), rng=rng)
+                if ctx.too_many():
+                    return
         rng = ctx.rng("randtrees")
         for k in range(spec["nrand"]):
             n = rng.randint(9, 40)
@@ -271,6 +360,7 @@ def run(ctx, spec):
 
             sys.setrecursionlimit(10000)
             check_tree(ctx, shape_of(0), triples=True, pairs_cap=1500, rng=rng)
+            check_reindexed(ctx, shape_of(0), random_ops(rng, n, rng.randint(1, 4)), rng=rng)
     elif spec["kind"] == "rmq":
         idx = 0
         for n in range(1, spec["maxlen"] + 1):
@@ -308,7 +398,11 @@ def replay(ctx, case):
     def tup(x):
         return None if x is None else tuple(tup(c) for c in x)
 
-    if case["kind"] == "tree":
+    if case["kind"] == "reindex":
+        import random
+
+        check_reindexed(ctx, tup(case["shape"]), [tuple(o) for o in case["ops"]], rng=random.Random(0))
+    elif case["kind"] == "tree":
         check_tree(ctx, tup(case["shape"]))
     elif case["kind"] == "rmq":
         check_rmq(ctx, [tuple(x) if isinstance(x, list) else x for x in case["arr"]])
